@@ -405,3 +405,157 @@ package geom
 //@   ensures (forall i int :: 0 <= i && i < len(cs) && cs[i] != nil ==> len(cs[i]) == strideOf(layout)) ==> len(res) == len(cs)
 //@   ensures (forall i int :: 0 <= i && i < len(cs) && cs[i] != nil ==> len(cs[i]) == strideOf(layout)) ==> forall i int :: 0 <= i && i < len(cs) ==> (cs[i] == nil <==> res[i] == nil)
 //@   ensures (forall i int :: 0 <= i && i < len(cs) && cs[i] != nil ==> len(cs[i]) == strideOf(layout)) ==> forall i, k int :: 0 <= i && i < len(cs) && cs[i] != nil && 0 <= k && k < len(cs[i]) ==> len(res[i]) == len(cs[i]) && res[i][k] == cs[i][k]
+
+// ---------------------------------------------------------------------------
+// C16: Clone. The generated deep-copy helpers are specified for a destination whose
+// slices are nil, which is how every Clone uses them (dst = new(T)).
+
+//@ func deriveDeepCopy_11
+//@   requires dst != nil && src != nil && dst != src && dst.flatCoords == nil
+//@   ensures eq0(dst, src) && (src.flatCoords != nil ==> fresh(dst.flatCoords))
+//@   modifies *dst
+
+//@ func deriveDeepCopy_8
+//@   requires dst != nil && src != nil && dst != src && dst.flatCoords == nil
+//@   ensures eq0(dst, src) && (src.flatCoords != nil ==> fresh(dst.flatCoords))
+//@   modifies *dst
+
+//@ func deriveDeepCopy_9
+//@   requires dst != nil && src != nil && dst != src && dst.flatCoords == nil && dst.ends == nil
+//@   ensures eq0(dst, src) && (src.flatCoords != nil ==> fresh(dst.flatCoords))
+//@   ensures sameInts(dst.ends, src.ends) && (src.ends != nil ==> fresh(dst.ends))
+//@   modifies *dst
+
+//@ func deriveDeepCopy_12
+//@   requires len(dst) == len(src) && (base(dst) != base(src) || len(src) == 0)
+//@   requires forall i int :: 0 <= i && i < len(dst) ==> dst[i] == nil
+//@   ensures forall i int :: 0 <= i && i < len(src) ==> sameInts(dst[i], src[i]) && (src[i] != nil ==> fresh(dst[i]))
+//@   ensures forall i, j int :: 0 <= i && i < j && j < len(src) && src[i] != nil && src[j] != nil ==> base(dst[i]) != base(dst[j])
+//@   ensures forall i int :: 0 <= i && i < len(src) ==> src[i] == old(src[i])
+//@   modifies dst
+//@   loop 1:
+//@     invariant forall i int :: 0 <= i && i < idx ==> len(dst[i]) == len(src[i]) && (dst[i] == nil <==> src[i] == nil) && (src[i] != nil ==> fresh(dst[i]) && allocated(dst[i]))
+//@     invariant forall i, k int :: 0 <= i && i < idx && 0 <= k && k < len(src[i]) ==> dst[i][k] == src[i][k]
+//@     invariant forall i int :: idx <= i && i < len(dst) ==> dst[i] == nil
+//@     invariant forall i, j int :: 0 <= i && i < j && j < idx && src[i] != nil && src[j] != nil ==> base(dst[i]) != base(dst[j])
+//@     invariant forall i int :: 0 <= i && i < len(src) ==> src[i] == old(src[i])
+
+//@ func deriveDeepCopy_10
+//@   requires dst != nil && src != nil && dst != src && dst.flatCoords == nil && dst.endss == nil
+//@   ensures eq0(dst, src) && (src.flatCoords != nil ==> fresh(dst.flatCoords))
+//@   ensures sameRows(dst.endss, src.endss) && (src.endss != nil ==> fresh(dst.endss))
+//@   ensures forall i int :: 0 <= i && i < len(src.endss) && src.endss[i] != nil ==> fresh(dst.endss[i])
+//@   ensures forall i, j int :: 0 <= i && i < j && j < len(src.endss) && src.endss[i] != nil && src.endss[j] != nil ==> base(dst.endss[i]) != base(dst.endss[j])
+//@   modifies *dst
+
+//@ func deriveClonePoint
+//@   ensures src == nil ==> res == nil
+//@   ensures src != nil ==> fresh(res) && eq0(res, src) && (src.flatCoords != nil ==> fresh(res.flatCoords))
+
+//@ func deriveCloneLineString
+//@   ensures src == nil ==> res == nil
+//@   ensures src != nil ==> fresh(res) && eq0(res, src) && (src.flatCoords != nil ==> fresh(res.flatCoords))
+
+//@ func deriveCloneLinearRing
+//@   ensures src == nil ==> res == nil
+//@   ensures src != nil ==> fresh(res) && eq0(res, src) && (src.flatCoords != nil ==> fresh(res.flatCoords))
+
+//@ func deriveClonePolygon
+//@   ensures src == nil ==> res == nil
+//@   ensures src != nil ==> fresh(res) && eq0(res, src) && (src.flatCoords != nil ==> fresh(res.flatCoords)) && sameInts(res.ends, src.ends) && (src.ends != nil ==> fresh(res.ends))
+
+//@ func deriveCloneMultiPoint
+//@   ensures src == nil ==> res == nil
+//@   ensures src != nil ==> fresh(res) && eq0(res, src) && (src.flatCoords != nil ==> fresh(res.flatCoords)) && sameInts(res.ends, src.ends) && (src.ends != nil ==> fresh(res.ends))
+
+//@ func deriveCloneMultiLineString
+//@   ensures src == nil ==> res == nil
+//@   ensures src != nil ==> fresh(res) && eq0(res, src) && (src.flatCoords != nil ==> fresh(res.flatCoords)) && sameInts(res.ends, src.ends) && (src.ends != nil ==> fresh(res.ends))
+
+//@ func deriveCloneMultiPolygon
+//@   ensures src == nil ==> res == nil
+//@   ensures src != nil ==> fresh(res) && eq0(res, src) && (src.flatCoords != nil ==> fresh(res.flatCoords)) && sameRows(res.endss, src.endss) && (src.endss != nil ==> fresh(res.endss))
+//@   ensures src != nil ==> forall i int :: 0 <= i && i < len(src.endss) && src.endss[i] != nil ==> fresh(res.endss[i])
+//@   ensures src != nil ==> forall i, j int :: 0 <= i && i < j && j < len(src.endss) && src.endss[i] != nil && src.endss[j] != nil ==> base(res.endss[i]) != base(res.endss[j])
+
+//@ func deriveCloneCoord
+//@   ensures sameF64s(res, src) && (src != nil ==> fresh(res))
+
+//@ func deriveCloneBounds
+//@   ensures src == nil ==> res == nil
+//@   ensures src != nil ==> fresh(res) && res.layout == src.layout && sameF64s(res.min, src.min) && sameF64s(res.max, src.max) && (src.min != nil ==> fresh(res.min)) && (src.max != nil ==> fresh(res.max)) && (src.min != nil && src.max != nil ==> base(res.min) != base(res.max))
+
+//@ func Point.Clone
+//@   ensures fresh(res) && eq0(res, g) && (g.flatCoords != nil ==> fresh(res.flatCoords))
+//@ func LineString.Clone
+//@   ensures fresh(res) && eq0(res, g) && (g.flatCoords != nil ==> fresh(res.flatCoords))
+//@ func LinearRing.Clone
+//@   ensures fresh(res) && eq0(res, g) && (g.flatCoords != nil ==> fresh(res.flatCoords))
+//@ func Polygon.Clone
+//@   ensures fresh(res) && eq0(res, g) && (g.flatCoords != nil ==> fresh(res.flatCoords)) && sameInts(res.ends, g.ends) && (g.ends != nil ==> fresh(res.ends))
+//@ func MultiPoint.Clone
+//@   ensures fresh(res) && eq0(res, g) && (g.flatCoords != nil ==> fresh(res.flatCoords)) && sameInts(res.ends, g.ends) && (g.ends != nil ==> fresh(res.ends))
+//@ func MultiLineString.Clone
+//@   ensures fresh(res) && eq0(res, g) && (g.flatCoords != nil ==> fresh(res.flatCoords)) && sameInts(res.ends, g.ends) && (g.ends != nil ==> fresh(res.ends))
+//@ func MultiPolygon.Clone
+//@   ensures fresh(res) && eq0(res, g) && (g.flatCoords != nil ==> fresh(res.flatCoords)) && sameRows(res.endss, g.endss) && (g.endss != nil ==> fresh(res.endss))
+//@   ensures forall i int :: 0 <= i && i < len(g.endss) && g.endss[i] != nil ==> fresh(res.endss[i])
+//@   ensures forall i, j int :: 0 <= i && i < j && j < len(g.endss) && g.endss[i] != nil && g.endss[j] != nil ==> base(res.endss[i]) != base(res.endss[j])
+//@ func Coord.Clone
+//@   ensures sameF64s(res, c) && (c != nil ==> fresh(res))
+//@ func Bounds.Clone
+//@   ensures fresh(res) && res.layout == b.layout && sameF64s(res.min, b.min) && sameF64s(res.max, b.max) && (b.min != nil ==> fresh(res.min)) && (b.max != nil ==> fresh(res.max)) && (b.min != nil && b.max != nil ==> base(res.min) != base(res.max))
+
+// ---------------------------------------------------------------------------
+// C02: Swap exchanges the two values completely (also when g == g2)
+
+//@ func Point.Swap
+//@   requires g2 != nil
+//@   ensures g.layout == old(g2.layout) && g.stride == old(g2.stride) && g.srid == old(g2.srid) && g.flatCoords == old(g2.flatCoords)
+//@   ensures g2.layout == old(g.layout) && g2.stride == old(g.stride) && g2.srid == old(g.srid) && g2.flatCoords == old(g.flatCoords)
+//@   modifies *g, *g2
+//@ func LineString.Swap
+//@   requires g2 != nil
+//@   ensures g.layout == old(g2.layout) && g.stride == old(g2.stride) && g.srid == old(g2.srid) && g.flatCoords == old(g2.flatCoords)
+//@   ensures g2.layout == old(g.layout) && g2.stride == old(g.stride) && g2.srid == old(g.srid) && g2.flatCoords == old(g.flatCoords)
+//@   modifies *g, *g2
+//@ func LinearRing.Swap
+//@   requires g2 != nil
+//@   ensures g.layout == old(g2.layout) && g.stride == old(g2.stride) && g.srid == old(g2.srid) && g.flatCoords == old(g2.flatCoords)
+//@   ensures g2.layout == old(g.layout) && g2.stride == old(g.stride) && g2.srid == old(g.srid) && g2.flatCoords == old(g.flatCoords)
+//@   modifies *g, *g2
+//@ func Polygon.Swap
+//@   requires g2 != nil
+//@   ensures g.layout == old(g2.layout) && g.stride == old(g2.stride) && g.srid == old(g2.srid) && g.flatCoords == old(g2.flatCoords) && g.ends == old(g2.ends)
+//@   ensures g2.layout == old(g.layout) && g2.stride == old(g.stride) && g2.srid == old(g.srid) && g2.flatCoords == old(g.flatCoords) && g2.ends == old(g.ends)
+//@   modifies *g, *g2
+//@ func MultiPoint.Swap
+//@   requires g2 != nil
+//@   ensures g.layout == old(g2.layout) && g.stride == old(g2.stride) && g.srid == old(g2.srid) && g.flatCoords == old(g2.flatCoords) && g.ends == old(g2.ends)
+//@   ensures g2.layout == old(g.layout) && g2.stride == old(g.stride) && g2.srid == old(g.srid) && g2.flatCoords == old(g.flatCoords) && g2.ends == old(g.ends)
+//@   modifies *g, *g2
+//@ func MultiLineString.Swap
+//@   requires g2 != nil
+//@   ensures g.layout == old(g2.layout) && g.stride == old(g2.stride) && g.srid == old(g2.srid) && g.flatCoords == old(g2.flatCoords) && g.ends == old(g2.ends)
+//@   ensures g2.layout == old(g.layout) && g2.stride == old(g.stride) && g2.srid == old(g.srid) && g2.flatCoords == old(g.flatCoords) && g2.ends == old(g.ends)
+//@   modifies *g, *g2
+//@ func MultiPolygon.Swap
+//@   requires g2 != nil
+//@   ensures g.layout == old(g2.layout) && g.stride == old(g2.stride) && g.srid == old(g2.srid) && g.flatCoords == old(g2.flatCoords) && g.endss == old(g2.endss)
+//@   ensures g2.layout == old(g.layout) && g2.stride == old(g.stride) && g2.srid == old(g.srid) && g2.flatCoords == old(g.flatCoords) && g2.endss == old(g.endss)
+//@   modifies *g, *g2
+
+// ---------------------------------------------------------------------------
+// C09: length and area over the reals
+
+//@ func doubleArea1
+//@   floats real
+//@   lemmas mulCancel, mulCancel2, mulNonneg
+//@   requires stride >= 2 && 0 <= offset && offset <= end && end <= len(flatCoords) && whole(end - offset, stride)
+//@   ensures forall n int :: n >= 1 && end - offset == mul(n, stride) ==> res == trap(cells(flatCoords), off(flatCoords)+offset, stride, n-1)
+//@   ensures end == offset ==> res == 0.0
+//@   loop 1:
+//@     ghost m int = 0 step m + 1
+//@     invariant m >= 0 && i == offset + mul(m+1, stride)
+//@     invariant m == 0 || offset + mul(m, stride) < end
+//@     invariant doubleArea == trap(cells(flatCoords), off(flatCoords)+offset, stride, m)
